@@ -549,6 +549,7 @@ func (c *Ctx) checkRunnerLoop() {
 				}
 				iters++
 				runs := 0
+				phiRun := false
 				var item *Sym
 				s := t.Events[si]
 				if s.Kind == EvCall {
@@ -558,9 +559,14 @@ func (c *Ctx) checkRunnerLoop() {
 					e := t.Events[j]
 					if (e.Kind == EvCall || e.Kind == EvEnter) && e.Method != nil && e.Method.Name() == "run" {
 						runs++
+						if producerPhi(e.Args[0], 0) != "" {
+							phiRun = true
+						}
 						if item != nil {
 							recv := e.Args[0]
-							if !(recv.Kind == KOp && recv.Name == "typeassert" && recv.Args[0].Key() == item.Key()) && ok {
+							// (in `for cc, ok := next(); ok; cc, ok = next()` the loop variable holds what the one producer
+							// returned last; the first, concrete iteration shows that this is the dequeued item)
+							if !(recv.Kind == KOp && recv.Name == "typeassert" && recv.Args[0].Key() == item.Key()) && producerPhi(recv, 0) == "" && ok {
 								ok = false
 								c.violated("C14.consumer-loop", cons, e.Pos, "run() is not invoked on the dequeued item", c.witness(t, j)...)
 							}
@@ -584,6 +590,40 @@ func (c *Ctx) checkRunnerLoop() {
 					// select: case receiving from the work channel
 					sel := s.Instr.(*ssa.Select)
 					got = s.Case >= 0 && sel.States[s.Case].Dir == types.RecvOnly && s.Addr != nil && strings.Contains(s.Addr.Key(), ".ch")
+				}
+				for j := si + 1; j < end && !phiRun; j++ {
+					if t.Events[j].Kind != EvLoopGen {
+						continue
+					}
+					// the dequeue sits before the loop was generalised and its results reach the test only through
+					// loop-carried variables: what follows is the abstract next iteration
+					for m := j + 1; m < end; m++ {
+						if b := t.Events[m]; b.Kind == EvBranch {
+							b.Cond.walk(func(x *Sym) {
+								if producerPhi(x, 0) != "" || producerPhi(x, 1) != "" {
+									phiRun = true
+								}
+							})
+						}
+					}
+				}
+				if !phiRun && t.End == EndCut && end == len(t.Events) {
+					// a dequeue at the end of the loop body (for-clause post statement), cut at the loop head: its item is
+					// consumed by the next iteration, which is not on this path
+					for _, b := range t.Events {
+						if b.Kind == EvBranch {
+							b.Cond.walk(func(x *Sym) {
+								if producerPhi(x, 0) != "" || producerPhi(x, 1) != "" {
+									phiRun = true
+								}
+							})
+						}
+					}
+				}
+				if phiRun {
+					// the generalised iteration of a `for cc, ok := next(); ok; cc, ok = next()` loop: the pairing of
+					// the flag with the item is what the producer returned, judged in the concrete first iteration
+					continue
 				}
 				if got && runs == 0 && ok {
 					ok = false
@@ -655,7 +695,7 @@ func (c *Ctx) checkCallWait() {
 						for j := i - 1; j >= 0 && j > i-12; j-- {
 							x := t.Events[j]
 							if x.Kind == EvLoad && x.Addr.Kind == KFieldAddr && (x.Addr.Field.Name() == "wait" || x.Addr.Field.Name() == "rChan") {
-								waited = x.Addr.Args[0]
+								waited = outerObject(x.Addr.Args[0])
 							}
 						}
 					}
